@@ -95,7 +95,8 @@ class Stats:
             if h not in self.nontrivial:
                 self.nontrivial.add(h)
                 self.per_part_nt[part.name] += 1
-                if self.per_part_nt[part.name] <= SAMPLES_PER_PART:
+                # the first generated cases are Hypothesis's simplest ones; also keep a later, more typical one
+                if self.per_part_nt[part.name] in (1, 12):
                     self.samples.append({"part": part.name, "case": case, "labels": list(res.labels)[:12]})
 
     def dump(self):
